@@ -230,6 +230,8 @@ var reStrKw = regexp.MustCompile(`'[^']*(?i:check \(|check\(|AS \(|constraint )[
 var reTypeParams = regexp.MustCompile(`\([0-9, ]+\)`)
 
 var repairs = []repair{
+	// the case-level repair: the parent table is intact (see repaired)
+	{name: "dangling-reference"},
 	{name: "bracket-ident", sty: func(st *style) { st.noBracket = true }},
 	{name: "nonword-name", ast: func(a *hSchema) { a.renameAll(sanitizeWord) }},
 	{name: "lowercase-where", sty: func(st *style) { st.whereUpper = true }},
@@ -498,6 +500,9 @@ func (c *loopCase) attribute(symptoms []string) map[string]string {
 		if len(left) == 0 {
 			break
 		}
+		if repairs[k].name == "dangling-reference" && c.dang == nil {
+			continue
+		}
 		rc := c.repaired(k)
 		rc.run()
 		now := map[string]bool{}
@@ -531,6 +536,8 @@ func (c *loopCase) attribute(symptoms []string) map[string]string {
 // that also occurs in a predicate - would hand a new defect to a known finding.)
 func (c *loopCase) causeApplies(cause string) bool {
 	switch cause {
+	case "dangling-reference":
+		return c.dang != nil
 	case "where-in-name":
 		// upper-case WHERE before the keyword of some partial index: in the index name, the table
 		// name or the key parts
@@ -594,7 +601,12 @@ func blocked(s string, now map[string]bool) bool {
 
 // repaired builds the case with repairs[0..k] applied.
 func (c *loopCase) repaired(k int) *loopCase {
-	a := c.ast.clone()
+	base, hist := c.ast, c.history
+	if c.dang != nil {
+		// every repaired run has the intact parent and no history
+		base, hist = c.full, "fresh"
+	}
+	a := base.clone()
 	r := rng.New(c.styleSeed)
 	st := newStyle(r, a)
 	for i := 0; i <= k; i++ {
@@ -605,7 +617,7 @@ func (c *loopCase) repaired(k int) *loopCase {
 			repairs[i].sty(st)
 		}
 	}
-	rc := &loopCase{id: c.id, how: c.how, ast: a, styleSeed: c.styleSeed, noAttr: true, history: c.history}
+	rc := &loopCase{id: c.id, how: c.how, ast: a, styleSeed: c.styleSeed, noAttr: true, history: hist}
 	rc.script = strings.Join(st.script(a), ";\n") + ";"
 	return rc
 }
